@@ -224,6 +224,29 @@ fn gen_calls(rng: &mut Rng, cs: u64, ntable: usize, table_len: &[usize]) -> Vec<
         };
         calls.push(c);
     }
+    // ABA motif through copy: the same unchanged source is copied onto the same target twice with another commit
+    // of the target in between; the second copy must publish a token the target never had, and an update
+    // conditioned on a retired token must be refused
+    if rng.chance(1, 2) {
+        let x = key(rng);
+        let mut y = key(rng);
+        if y == x { y = KEYS.iter().find(|k| **k != x.as_str()).unwrap().to_string(); }
+        let pid = rng.below(ntable as u64) as usize;
+        let pid2 = rng.below(ntable as u64) as usize;
+        let at = rng.below(calls.len() as u64 + 1) as usize;
+        let mid = if rng.chance(1, 2) { Call::Put { k: y.clone(), pid: pid2, mode: PMode::Overwrite } } else { Call::Delete { k: y.clone() } };
+        let motif = vec![
+            Call::Put { k: x.clone(), pid, mode: PMode::Overwrite },
+            Call::Copy { from: x.clone(), to: y.clone(), create: false },
+            mid,
+            Call::Copy { from: x.clone(), to: y.clone(), create: false },
+            Call::Head { k: y.clone() },
+            Call::Put { k: y.clone(), pid: pid2, mode: PMode::Update(Tok::Stale) },
+        ];
+        let tail = calls.split_off(at);
+        calls.extend(motif);
+        calls.extend(tail);
+    }
     calls
 }
 
